@@ -1,9 +1,11 @@
 #!/usr/bin/env python3
 """Regenerates /verif/MANIFEST.json from harness/props.json (claimed checks)
 and harness/not_applicable.json (reasons for unclaimed properties)."""
-import json, os
+import json, os, glob
 root = os.path.dirname(os.path.dirname(os.path.abspath(__file__)))
-props = json.load(open(os.path.join(root, 'harness/props.json')))
+props = {}
+for f in sorted(glob.glob(os.path.join(root, 'harness/props.d/*.json'))):
+    props.update(json.load(open(f)))
 na = json.load(open(os.path.join(root, 'harness/not_applicable.json')))
 ids = [json.loads(l)['id'] for l in open(os.path.join(root, 'properties.jsonl'))]
 checks, not_app = [], []
